@@ -61,6 +61,15 @@ struct VmSharedReadonly {
     foreign_function_policies: Vec<ForeignCallPolicy>,
 }
 
+impl Drop for VmSharedReadonly {
+    fn drop(&mut self) {
+        // the program's string constants are owned by this block (they are not in any thread's heap)
+        for s in self.static_strings.drain(..) {
+            let _ = unsafe { Box::from_raw(s) };
+        }
+    }
+}
+
 /*
 The CLI or some other program will
    2. initialize the worker pool (pool of real OS threads which will run the green threads) (OR JUST USE RAYON)
